@@ -28,6 +28,7 @@ class DelayedCF:
             time.sleep(d)
         return self.orig(sig, *a, **k)
 
+TH_OBJ = {'amp_fraction_threshold': .2, 'amp_consistency_threshold': .4, 'period_consistency_threshold': .45, 'monotonicity_threshold': .7, 'min_n_cycles': 2}      # (tutorial-like settings of a group object)
 OPTS = [
     {'threshold_kwargs': {}},
     {'center_extrema': 'trough', 'threshold_kwargs': {'min_n_cycles': 2}},
@@ -143,7 +144,7 @@ def evaluate(ctx, cases):
                                      n_jobs=c['n_jobs'], progress=c['progress'])
                 models = None
             else:
-                o = dict(OPTS[c['oids'][0]]) if c['kw'] == 'dict' else {'threshold_kwargs': {}}
+                o = dict(OPTS[c['oids'][0]]) if c['kw'] == 'dict' else {'threshold_kwargs': (dict(TH_OBJ) if c['seed'] % 5 < 3 else {})}
                 if c['seed'] % 2 == 0:
                     bg = BycycleGroup(center_extrema=o.get('center_extrema', 'peak'), burst_method=o.get('burst_method', 'cycles'),
                                       burst_kwargs=o.get('burst_kwargs'), thresholds=o.get('threshold_kwargs'),
@@ -164,6 +165,12 @@ def evaluate(ctx, cases):
                     except Exception:
                         pass
                     target[:] = sigs
+                elif c['seed'] % 3 == 1:    # a session history: fitted, edges recomputed with a reduction (for that call only), fitted again - the second fit
+                    try:                    # runs with the thresholds the user stored
+                        implutil.quiet(bg.fit, sigs, fs, fr, axis=0, n_jobs=1)
+                        implutil.quiet(bg.recompute_edges, 0.0625)
+                    except Exception:
+                        pass
                 implutil.quiet(bg.fit, target, fs, fr, axis=0, n_jobs=c['n_jobs'], progress=c['progress'])
                 res, models = bg.df_features, bg.models
             err = None
@@ -180,7 +187,7 @@ def evaluate(ctx, cases):
             for i, tag in enumerate(pred):
                 sid, oid = int(tag[0][0]), int(tag[1])
                 if c['via'] == 'object':
-                    opts = dict(OPTS[c['oids'][0]]) if c['kw'] == 'dict' else {'threshold_kwargs': {}}
+                    opts = dict(OPTS[c['oids'][0]]) if c['kw'] == 'dict' else {'threshold_kwargs': (dict(TH_OBJ) if c['seed'] % 5 < 3 else {})}
                     if opts.get('find_extrema_kwargs') is None: opts.pop('find_extrema_kwargs', None)
                 elif c['kw'] == 'shared_nested':
                     opts = {'burst_method': 'amp', 'burst_kwargs': {'amp_threshes': (0.5, 1.5)}, 'threshold_kwargs': {'burst_fraction_threshold': 0.8, 'min_n_cycles': 1 + 2 * sid}}
